@@ -88,7 +88,8 @@ Proof.
   unfold reg_matches in Hm. repeat (apply andb_true_iff in Hm as [Hm ?]).
   repeat match goal with H : str_eqb _ _ = true |- _ => apply str_eqb_spec in H end.
   match goal with H : list_eqb str_eqb _ _ = true |- _ => apply (list_eqb_spec str_eqb str_eqb_spec) in H end.
-  unfold reg_key, route_key. destruct cm as [c m]. simpl in *. congruence.
+  unfold reg_key, route_key. destruct cm as [c m]. simpl in *.
+  repeat match goal with H : _ = _ |- _ => rewrite H; clear H end. reflexivity.
 Qed.
 
 Theorem router_ok_table (p : project) (regs : list registration) :
